@@ -265,6 +265,27 @@ def check_throw(ctx, geom, cfg, n, stream, ci):
     return full_c
 
 
+def part_time_grid(ctx, nss, RegionGeomToO):
+    """the time grid for EVERY N in a range (a floating-point step can add or drop an instant for particular N only)"""
+    rng = ctx.rng
+    cfg = random_config(nss, rng, 0)
+    top = 4000 if ctx.thorough else 700
+    for T in ((86400.0, 3600.0, 12345.678) if ctx.thorough else (86400.0, 977.0)):
+        cfg.simulation.target.source_obst = T
+        geom = RegionGeomToO(cfg)
+        for n in list(range(1, top + 1)) + [4999, 9973, 10000, 16384, 20000]:
+            t = geom.generate_times(n)
+            off = np.asarray((t - geom.too_source.eventtime).sec, dtype=np.float64)
+            ctx.case(("time-grid", T, n))
+            case = {"N": n, "T": T, "instants": int(len(off)), "last_offset_s": float(off[-1]) if len(off) else None}
+            tol = 2e-6
+            if len(off) != n:
+                ctx.violation("RegionGeomToO.generate_times", "count", f"{len(off)} instants for N={n}", case)
+            elif abs(off[0]) > tol or (n > 1 and np.max(np.abs(np.diff(off) - T / n)) > tol) or not (off[-1] < T and abs(off[-1] - (T - T / n)) <= tol):
+                ctx.violation("RegionGeomToO.generate_times", "not-equally-spaced", "instants are not t0 + k T/N, k < N", case)
+    ctx.count("time-grid-sizes", top + 5)
+
+
 def part_throw(ctx, nss, RegionGeomToO):
     rng = ctx.rng
     ncfg = 400 if ctx.thorough else 36
@@ -448,6 +469,7 @@ def run(ctx: Ctx):
         iers.conf.iers_degraded_accuracy = "ignore"
     except Exception:  # noqa: BLE001
         pass
+    part_time_grid(ctx, nss, RegionGeomToO)
     part_throw(ctx, nss, RegionGeomToO)
     part_dark(ctx, nss, RegionGeomToO)
 
